@@ -15,13 +15,19 @@ ASSUMPTIONS = ["round(alpha*n): both round-half-up and round-half-even accepted 
 
 
 def bounds(tier):
-    return {"S": 200 if tier == "quick" else 3000, "n": [1, 4] if tier == "quick" else [1, 5]}
+    return {"S": 200 if tier == "quick" else 3000, "n": [1, 4] if tier == "quick" else [1, 5],
+            "schedule_bound": 2 if tier == "quick" else 3}
 
 
 def cases(tier, seed):
     b = bounds(tier)
     for (m, rows) in ((17, 65537), (70, 20001), (16, 70001), (3, 400003)) + (((33, 100003),) if tier == "thorough" else ()):
         yield {"m": m, "rows": rows}
+    K = 8
+    for W, m in ((2, 3), (3, 3), (2, 4)):
+        for k in range(K):
+            yield {"kind": "schedule", "W": W, "n": 4, "alpha": 1.5 if W == 3 else 1.0, "m": m, "weights": W != 3,
+                   "bound": b["schedule_bound"], "part": [k, K], "g": W}
     for n in range(b["n"][0], b["n"][1] + 1):
         for alpha in (0.5, 1.0, 1.5):
             for m in (1, 2, 3):
@@ -87,11 +93,116 @@ def _bigbatch(case):
     return {"viol": viol, "nontrivial": True, "states": 1, "transitions": rows, "outcome": ("big", m, rows)}
 
 
+def _schedule(case):
+    """Part S: IntervalRegressor(n_jobs=W).fit under EVERY thread schedule with <= bound preemptions (scheduling point = every
+    source line of the bootstrap task body; the base regressor's fit is one atomic step). In every schedule: one fit per model,
+    round(alpha*n) rows each, all from [0,n), features / target / weight of a row kept together, nothing handed to a model is
+    overwritten afterwards, and the three aggregations agree with the individual predictions."""
+    import json
+    import numpy
+    from mcheck import sched
+    from mlinsights.mlmodel import IntervalRegressor
+    Recorder = _make_recorder()
+    n, alpha, m, W = case["n"], case["alpha"], case["m"], case["W"]
+    viol, sigs = [], set()
+
+    def bad(kind, msg):
+        sig = "IntervalRegressor|%s|n_jobs=%d thread schedule" % (kind, W)
+        if sig not in sigs:
+            sigs.add(sig)
+            viol.append({"sig": sig, "msg": msg})
+
+    X = numpy.arange(n, dtype=numpy.float64).reshape(-1, 1)
+    y = 100.0 + numpy.arange(n)
+    w = 1000.0 + numpy.arange(n) if case["weights"] else None
+    P = numpy.array([[0.0], [1.5], [-2.0], [7.0]])
+    sizes_ok = {int(alpha * n + 0.5), int(round(alpha * n))}
+    sched.install()
+    try:
+        def run_once():
+            numpy.random.seed(case.get("g", 0))
+            log = _Log()
+            obs = {"problems": []}
+            pr = obs["problems"]
+            try:
+                model = IntervalRegressor(estimator=Recorder(log=log), n_estimators=m, alpha=alpha, n_jobs=W)
+                r = model.fit(X, y, sample_weight=w)
+            except Exception as e:
+                pr.append(("fit raises %s" % type(e).__name__, str(e)[:200]))
+                return obs
+            if r is not model:
+                pr.append(("fit does not return self", ""))
+            ests = list(model.estimators_)
+            if len(ests) != m or len(log.fits) != m or len({id(e) for e in ests}) != m or any(not hasattr(e, "seen_") for e in ests):
+                pr.append(("number of fitted models", "%d models, %d fits for n_estimators=%d" % (len(ests), len(log.fits), m)))
+                return obs
+            draws = []
+            for est in ests:
+                Xs, ys, ws = est.seen_
+                idx = Xs[:, 0]
+                draws.append([float(v) for v in idx])
+                if len(ys) not in sizes_ok or len(Xs) != len(ys):
+                    pr.append(("sample size != round(alpha*n)", "%d rows" % len(ys)))
+                if len(idx) and (idx.min() < 0 or idx.max() > n - 1 or (idx != idx.astype(int)).any()):
+                    pr.append(("drawn row is not a training row", repr(idx.tolist())))
+                elif len(ys) != len(idx) or not numpy.array_equal(ys - 100.0, idx) or (w is not None and (
+                        ws is None or len(ws) != len(idx) or not numpy.array_equal(ws, w[idx.astype(int)]))):
+                    pr.append(("features/target/weight of a drawn row not kept together",
+                               "X=%r y=%r w=%r" % (idx.tolist(), ys.tolist(), None if ws is None else ws.tolist())))
+                for nm, a_, b_ in zip(("features", "targets", "weights"), est.ref_, est.seen_):
+                    if (a_ is None) != (b_ is None) or (a_ is not None and not numpy.array_equal(numpy.asarray(a_), b_)):
+                        pr.append(("training arrays handed to a model were overwritten after its fit", nm))
+            try:
+                pa = numpy.asarray(model.predict_all(P))
+                pm = numpy.asarray(model.predict(P))
+                ps = numpy.asarray(model.predict_sorted(P))
+                exp_all = numpy.column_stack([est.predict(P) for est in ests])
+                if pa.shape != exp_all.shape or not numpy.array_equal(pa, exp_all):
+                    pr.append(("predict_all != individual predictions", ""))
+                elif pm.shape != (len(P),) or numpy.abs(pm - exp_all.mean(axis=1)).max() > 1e-12:
+                    pr.append(("predict != mean of individual predictions", ""))
+                elif ps.shape != pa.shape or not numpy.array_equal(ps, numpy.sort(exp_all, axis=1)):
+                    pr.append(("predict_sorted != row-wise sorted predictions", ""))
+            except Exception as e:
+                pr.append(("predict raises %s" % type(e).__name__, str(e)[:200]))
+            obs["draws"] = sorted(draws)       # which vectors were drawn (the schedule may hand them to other models: not an error)
+            obs["fit order"] = [e.k_ for e in ests]
+            return obs
+
+        execs, points, outcomes = 0, 0, {}
+        for choices, obs, pts in sched.explore(run_once, case["bound"], part=tuple(case.get("part", (0, 1)))):
+            execs += 1
+            points = max(points, len(pts))
+            key = json.dumps(obs, sort_keys=True)
+            outcomes.setdefault(key, choices)
+            for kind, msg in obs["problems"]:
+                bad(kind, "%s; schedule %r (n=%d alpha=%s n_estimators=%d weights=%s seed %d)" % (
+                    msg, choices[:80], n, alpha, m, case["weights"], case.get("g", 0)))
+        for key, choices in list(outcomes.items())[:2]:
+            for _ in range(2):
+                sched.ControlledParallel.chooser = sched.Chooser(choices)
+                try:
+                    o = run_once()
+                finally:
+                    sched.ControlledParallel.chooser = None
+                if json.dumps(o, sort_keys=True) != key:
+                    raise AssertionError("harness: schedule replay is not deterministic")
+        if case.get("part", (0, 1))[0] == 0 and points < 3 * m:
+            raise AssertionError("harness: only %d scheduling points: the task bodies are not under the scheduler" % points)
+    finally:
+        sched.uninstall()
+    return {"viol": viol, "nontrivial": True, "states": execs, "transitions": execs * max(points, 1), "outcome": ("sched", W, len(outcomes)),
+            "counters": {"schedules_explored": execs, "max_scheduling_points": points, "distinct_outcomes": len(outcomes)},
+            "sample": {"schedules": execs, "distinct outcomes (fit orders x draw assignments)": len(outcomes), "scheduling points per execution": points}}
+
+
 def run_case(case):
     import numpy
     from mlinsights.mlmodel import IntervalRegressor
     if "rows" in case:
         return _bigbatch(case)
+    if case.get("kind") == "schedule":
+        return _schedule(case)
 
     Recorder = _make_recorder()
     n, alpha, m, S = case["n"], case["alpha"], case["m"], case["S"]
